@@ -1562,3 +1562,90 @@ def _bare_local(op):
     if op.get("k") in ("copy", "move") and not op["pl"].get("p"):
         return op["pl"]["l"]
     return None
+
+
+# ---- O15 (C03, C14): the WAL outlives a failed hash-table writeout ---------------------------------
+
+
+def o15(ctx, rep):
+    """in the post-meta phase the WAL of a sync is discarded (truncate_wal) only once the hash-table writeout it covers has
+    SUCCEEDED: the result of write_ht is checked (the error edge leaves) before the truncation can start.  A failed writeout
+    leaves torn hash-table pages behind; with the WAL gone the reopened store has the new meta page and values on top of the
+    old merkle pages."""
+    facts = ctx.facts
+    body = facts.body("nomt::bitbox::SyncController::post_meta")
+    fn = short(body.id)
+    n = 0
+    region = owned_region(facts, body.id)
+
+    def sites(target):
+        out = [b for b, t in body.calls() if t.get("callee") == target and not body.is_cleanup(b)]
+        for rb in [facts.bodies[x] for x in sorted(region) if facts.bodies[x].kind != "Closure"]:
+            if any(t.get("callee") == target for _b, t in rb.calls()):
+                out += entry_blocks(facts, body, rb.id, region)
+        return sorted(set(out))
+
+    W = sites("nomt::bitbox::writeout::write_ht")
+    T = sites("nomt::bitbox::writeout::truncate_wal")
+    n += 1
+    if not rep.check(bool(W) and bool(T), "O15", fn, "writeout-then-truncate", "post_meta no longer performs the hash-table writeout followed by the WAL truncation", site=body.span, detail="write_ht at bb%s, truncate_wal at bb%s" % (W, T)):
+        return n
+    for w in W:
+        for t in T:
+            if t not in body.reachable(body.succ(w)):
+                continue
+            n += 1
+            ok = ctx.model.checked_before(body, w, t, strict=True)
+            rep.check(ok, "O15", fn, "truncate-only-after-successful-writeout", "the WAL can be truncated at %s although the hash-table writeout at %s failed: its result is not checked before the truncation - the failed sync would lose the only record from which the torn pages can be redone" % (body.term(t).get("ln"), body.term(w).get("ln")), site=body.term(t).get("ln"), detail="write_ht(..)? at %s precedes truncate_wal at %s" % (body.term(w).get("ln"), body.term(t).get("ln")))
+    return n
+
+
+# ---- O16 (C03): the redo decides by page identity ----------------------------------------------------
+
+
+def o16(ctx, rep):
+    """in the WAL redo, whether an Update entry's bucket is (re)marked as occupied may depend only on conditions that look at
+    WHICH page the entry is about (the hash of its page id against the map's hint), never on the bucket's emptiness alone: the
+    interrupted sync may have placed the page into a tombstoned bucket, or into a bucket whose map page had already reached the
+    disk.  An unconditional set_full is fine."""
+    import termination
+
+    facts = ctx.facts
+    entry = facts.body("nomt::bitbox::recover")
+    region = owned_region(facts, entry.id)
+    n = 0
+    for body in [entry] + [facts.bodies[x] for x in sorted(region) if facts.bodies[x].kind != "Closure"]:
+        sites = [b for b, t in body.calls() if (t.get("callee") or "").endswith("MetaMap::set_full") and not body.is_cleanup(b)]
+        if not sites:
+            continue
+        loops = ctx.model.loops(body)
+
+        def page_identity(r):
+            if r.kind in ("call", "via") and ("page_id" in str(r.what).rsplit("::", 1)[-1] or str(r.what).rsplit("::", 1)[-1].startswith("hash")):
+                return True
+            return any(f == "page_id" for f in r.fields) or (r.kind == "param" and body.local_name(r.what) in ("page_id", "hash"))
+
+        for b in sites:
+            cands = [blk for (h, blk, lat) in loops if b in blk]
+            scope = min(cands, key=len) if cands else set(range(body.n))
+            for sb in sorted(scope):
+                t = body.term(sb)
+                if t["k"] != "switch" or body.is_cleanup(sb) or sb == b or not body.dominates(sb, b):
+                    continue
+                succs = set(body.succ(sb))
+                through = [x for x in succs if x == b or body.dominates(x, b)]
+                if not through or len(through) == len(succs):
+                    continue  # b does not depend on this branch
+                # the dispatch on the entry kind and `?` checks are not conditions on the map
+                is_plumbing = False
+                for s_ in body.stmts(sb):
+                    if s_["k"] == "assign" and s_["rv"]["k"] == "discr" and t["d"].get("pl", {}).get("l") == s_["pl"]["l"]:
+                        ty = body.place_ty(s_["rv"]["pl"]) or ""
+                        if ty.endswith("WalEntry") or ty.startswith("core::ops::control_flow::ControlFlow") or ty.startswith("core::option::Option<nomt::bitbox::wal") or ty.startswith("core::result::Result"):
+                            is_plumbing = True
+                if is_plumbing:
+                    continue
+                n += 1
+                ok = termination.derives_from(body, t["d"], page_identity)
+                rep.check(ok, "O16", short(body.id), "set_full-decided-by-page-identity", "in the WAL redo, MetaMap::set_full at %s depends on a condition (at %s) that does not look at which page the entry is about: a page the interrupted sync placed into a tombstoned bucket would stay unreachable after recovery" % (body.term(b).get("ln"), t.get("ln")), site=t.get("ln"), detail="the condition at %s derives from the entry's page id" % t.get("ln"))
+    return n
